@@ -87,7 +87,7 @@ def c23_4(cx):
     cx.only_if(g, byte, Cmp(r"^\$2\.0$", "<", r"load\(\$1\.allocated"), "Page::get computes a slot pointer only for an initialised index")
 
 
-@ob("C24.1", ["C24", "C23"], "two handles that believe they own the same unfilled page write the same slot index: two structs with one identity", kind="WRITERS+FLOW")
+@ob("C24.1", ["C24", "C23", "C16"], "two handles that believe they own the same unfilled page write the same slot index: two structs with one identity", kind="WRITERS+FLOW")
 def c24_1(cx):
     """most_recent_pages is filled only from fetch_or_push_page / push_page; take_non_full_page pops under the PAGES lock; record_unfilled_pages drains the handle's own map (via &mut self) into record_unfilled_page; it is reached from Storage::drop and into_zalsa_handle; make_id / split_id are inverse."""
     zl = r"^zalsa_local::ZalsaLocal::"
@@ -393,7 +393,7 @@ def c23_2(cx):
     cx.flow(e, e.origin_local(0), [r"^transmute\(\$2\)$"], [r"transmute\(\$1"], "extend_memo_lifetime returns its argument")
 
 
-@ob("C24.2", ["C24", "C23"], "pages are typed per ingredient: a page cached or recycled under another ingredient's key receives slots of a foreign type (and two ingredients hand out ids from one page)", kind="FLOW (per-ingredient keying of the page cache and the shared list)")
+@ob("C24.2", ["C24", "C23", "C16"], "pages are typed per ingredient: a page cached or recycled under another ingredient's key receives slots of a foreign type (and two ingredients hand out ids from one page)", kind="FLOW (per-ingredient keying of the page cache and the shared list)")
 def c24_2(cx):
     """ZalsaLocal::allocate / allocate_cold: the cached page is looked up, inserted and pushed under the ingredient asked ($3); the slot is allocated on the page view of exactly that page index with that page index; the shared unfilled-page list is keyed by ingredient on both sides (take_non_full_page / record_unfilled_page) and record_unfilled_pages gives every (ingredient, page) pair back unchanged."""
     zl = r"^zalsa_local::ZalsaLocal::"
